@@ -835,6 +835,27 @@ def stream_catalogue_faults(rng, tier, ctors):
     return out
 
 
+def stream_reapply(rng, tier, ctors):
+    """a request, something in between (reset, self test, command, another request), the SAME
+    request again: after a reset every differing register must go over the bus again, whatever
+    the transport saw before"""
+    out = []
+    n = 0
+    for ctor in ctors:
+        for i in range(150 if tier == 'quick' else 3000):
+            b = rng.choice(BUILDERS)
+            rq = rand_request(rng, b, 3)
+            if b in ('gen1', 'gen2', 'act'):
+                rq = rq if ' src:' in rq else rq + ' src:1'
+            mid = rng.choice([['reset'], ['reset'], ['selftest'], ['flush'], [rand_request(rng)], ['reset', 'status'],
+                              [rand_request(rng, b, 2), 'reset']])
+            ops = [rq] + mid + [rq, rng.choice(GETTERS)]
+            hdr = 'low=%s pos=%s neg=%s' % (rand_low(rng), hexs(sample6(rng, True)), hexs(sample6(rng, False)))
+            out.append(case('ra%d' % n, ctor, ops, hdr))
+            n += 1
+    return out
+
+
 def stream_twin(rng, tier):
     """C14: the same program over I2C (`…a`) and SPI (`…b`)"""
     out = []
